@@ -79,6 +79,24 @@ class T:
         p, kinds, root = path_of(h[1])
         return p, kinds, root, h[2]
 
+    def vis_path(self, i):
+        """for an `ALT{  || pub }` alternative: the access path of the value whose variant decides it, and whether `pub`
+        is emitted exactly for Public"""
+        a = self.alts.get(int(i))
+        if not a or len(a) < 4 or len(a[3]) != 2:
+            return None, False
+        out = []
+        for arm_conds in a[3]:
+            last = [c for c in arm_conds if c[0][0] == 'discr']
+            if not last:
+                return None, False
+            c, lab = last[-1]
+            p, _, _ = path_of(c[1])
+            out.append((p, lab))
+        if out[0][0] != out[1][0]:
+            return None, False
+        return out[0][0], (out[0][1] == 'Private' and out[1][1] == 'Public')
+
     def rep_info(self, i):
         r = self.reps[int(i)]
         info = (r[3] or [None])[0]
@@ -243,7 +261,10 @@ def struct_rules(ctx, item):
                pn is not None and pn.endswith('.name') and 'str_to_ident' in kn and pt is not None and pt.endswith('.type_ref') and 'sa_type_to_syn_type' in kt and
                rn == rt and rn is not None and rn[0] in ('arg', 'carg') and re.search(r'lines\(.*\br\.doc|lines\(.*\.doc', fd) is not None)
         # the struct's visibility alternative is keyed on the item's visibility, the field's on the region's
-        okh = okh and True
+        vp, vok = item.vis_path(valt)
+        fp, fok = item.vis_path(fvalt)
+        det += ' | struct vis %s field vis %s' % (vp, fp)
+        okh = okh and vok and vp == 'definition.visibility' and fok and fp is not None and fp.endswith('.visibility') and fp.split('.')[0] == (pn or '').split('.')[0]
     ctx.ob(['C01', 'C17', 'C14'], 'R-TMPL', 'struct|fields', okh,
            'struct <item name> { one field per region of the item\'s own region list, in order, comma separated; each with the region\'s own docs, visibility, name and type }: %s' % det, where)
     vis_checks(ctx, item, s, 'struct')
@@ -268,7 +289,8 @@ def struct_rules(ctx, item):
         cond = show(item.opts[int(o)][1])
         pa = item.hp(ha)
         det = 'cond %s address %s (%s)' % (cond[:80], pa[0], pa[3])
-        oksg = 'singleton' in cond and pa[0] is not None and ('upvar' in pa[0] or pa[0].endswith('singleton') or pa[0] in ('address',)) and 'visibility' in ' '.join(item.alts[int(va)][1])
+        svp, svok = item.vis_path(va)
+        oksg = 'singleton' in cond and pa[0] is not None and ('upvar' in pa[0] or pa[0].endswith('singleton') or pa[0] in ('address',)) and svok and svp == 'definition.visibility'
         # the address is the payload of the Option the OPT tests
         oksg = oksg and strip(item.opts[int(o)][1][1] if item.opts[int(o)][1][0] == 'is_some' else ('x',)) is not None
     ctx.ob(['C15', 'C17'], 'R-TMPL', 'struct|singleton', oksg,
@@ -362,11 +384,12 @@ def enum_rules(ctx, item):
         base = show((info or {}).get('base', ('?',)))
         labs = item.alts[int(dalt)][1]
         pn1, pv1, pn2, pv2 = item.hp(n1), item.hp(v1), item.hp(n2), item.hp(v2)
-        det = 'repr %s; variants over %s %s; name %s value %s (%s); default alt %s' % (pr[0], base[-40:], chain, pn1[0], pv1[0], pv1[3], labs[0][:90])
+        evp, evok = item.vis_path(valt)
+        det = 'repr %s; variants over %s %s; name %s value %s (%s); default alt %s; vis %s' % (pr[0], base[-40:], chain, pn1[0], pv1[0], pv1[3], labs[0][:90], evp)
         cast = c1 or c2
         ok = (pr[0] is not None and pr[0].endswith('.type_') and 'sa_type_to_syn_type' in pr[1] and base.endswith('.fields') and chain == ['iter', 'enumerate', 'map'] and r[2] == ',' and
               pn1[0] == pn2[0] and pv1[0] == pv2[0] and pn1[0] is not None and pv1[0] is not None and pn1[0].endswith('.1.0') and pv1[0].endswith('.1.1') and
-              'is_some_and' in labs[0] and labs[0].endswith('=True'))
+              'is_some_and' in labs[0] and labs[0].endswith('=True') and evok and evp == 'definition.visibility')
         # default marker: default_index == enumerate index
         dlab = labs[0]
         okd = False
@@ -408,7 +431,8 @@ def enum_rules(ctx, item):
         cond = show(item.opts[int(o)][1])
         pa = item.hp(ha)
         det = 'cond %s address %s' % (cond[:80], pa[0])
-        okg = 'singleton' in cond and pa[0] is not None and 'hex_literal' in pa[1]
+        gvp, gvok = item.vis_path(va)
+        okg = 'singleton' in cond and pa[0] is not None and 'hex_literal' in pa[1] and gvok and gvp == 'definition.visibility'
     ctx.ob(['C15'], 'R-TMPL', 'enum|singleton', okg, 'an enum singleton returns the value stored at the declared address (`*(A as *const Self)`, one dereference): %s' % det, where)
 
 
@@ -444,8 +468,8 @@ def fn_rules(ctx, fn):
            'wrapper = <function docs> <function visibility> unsafe fn <function name>(<every argument in order: &self | &mut self | name: type>) [-> return type]: name %s args %s %s ret %s docs %s' % (
                pname[0], base, chain, rcond[:60], dsrc[:60]), where)
     # visibility alternative is function.visibility: check the call argument in MIR
-    vc = [c for c in fn.f.calls(lambda r_: r_['path'] and r_['path'].endswith('visibility_to_tokens'))]
-    okv = len(vc) == 1 and path_of(fn.f.expr_of_operand(vc[0]['term']['args'][0]))[0] == 'function.visibility'
+    vp, vok = fn.vis_path(valt)
+    okv = vok and vp == 'function.visibility'
     ctx.ob(['C17'], 'R-TMPL', 'fn|visibility', okv, 'the wrapper is `pub` exactly when the function is public (visibility_to_tokens(function.visibility))', where)
     blabs = fn.alts[int(balt)][1]
     arms = split_top(bodies)
@@ -587,8 +611,8 @@ def extern_rules(ctx, ev):
         nm = ev.holes[int(hn)][1]
         fs = [x for x in walk(nm) if isinstance(x, tuple) and x[0] == 'const' and x[1].startswith('b"')]
         name_src = any(path_of(x)[0] == 'ev.name' for x in walk(nm) if isinstance(x, tuple) and x[0] == 'field')
-        vc = [c for c in ev.f.calls(lambda r_: r_['path'] and r_['path'].endswith('visibility_to_tokens'))]
-        okv = len(vc) == 1 and path_of(ev.f.expr_of_operand(vc[0]['term']['args'][0]))[0] == 'ev.visibility'
+        vp, vok = ev.vis_path(va)
+        okv = vok and vp == 'ev.visibility'
         det = 'name fmt %s from ev.name %s; type %s/%s; address %s %s; vis %s' % (fs[0][1] if fs else None, name_src, pt1[0], pt2[0], pa[0], pa[1], okv)
         ok = bool(fs) and 'get_' in fs[0][1] and name_src and pt1[0] == 'ev.type_' and pt2[0] == 'ev.type_' and pa[0] == 'ev.address' and 'hex_literal' in pa[1] and okv
     ctx.ob(['C15', 'C17', 'C14'], 'R-TMPL', 'extern|accessor', ok,
